@@ -84,7 +84,8 @@ class C13(runner.Check):
 	level = "exploration"
 	hang_s = 240
 	rule = ("One evaluation = one simulated session: a generated world (targets, "
-		"query pool with deliberately mixed lengths, TOMTOM configuration) and 1-3 "
+		"query pool with deliberately mixed lengths -- probability, one-hot, two-decimal "
+		"rounded and count matrices, in mixed dtypes --, TOMTOM configuration) and 1-3 "
 		"tomtom()/annotate_seqlets() calls, each with its own query list (subset / "
 		"permutation / duplication of the pool), thread count K, work distribution, "
 		"statement-level interleaving and poison for every numpy.empty scratch "
